@@ -20,8 +20,23 @@ where
 {
     let mut out = Vec::new();
     force(arm);
-    let striped: Vec<StripedSequence<A, U32>> = data.iter().map(|r| {
-        let mut s: StripedSequence<A, U32> = Pipeline::<A, _>::generic().stripe(A::syms(r));
+    // the sequences reach the sampler in the ways a program may have produced them: striped and configured once; configured
+    // twice (for a shorter motif first); or as a PREFIX VIEW of a longer striped sequence (StripedSequence::new over its
+    // matrix with a shorter length: the cells past the end then hold real symbols, not the default one)
+    let striped: Vec<StripedSequence<A, U32>> = data.iter().enumerate().map(|(i, r)| {
+        let how = (i + w + data.len()) % 4;
+        let mut s: StripedSequence<A, U32> = if how == 3 && r.len() >= 33 {
+            let rows = (r.len() + 31) / 32;
+            // a longer sequence with the same number of rows: r followed by other symbols up to the end of the last column
+            let mut full = r.clone();
+            let mut k = 0usize;
+            while full.len() < rows * 32 { full.push((k * 7 + i) % (A::KK - 1)); k += 1; }
+            let fs: StripedSequence<A, U32> = Pipeline::<A, _>::generic().stripe(A::syms(&full));
+            StripedSequence::new(fs.into_matrix(), r.len()).expect("prefix view")
+        } else {
+            Pipeline::<A, _>::generic().stripe(A::syms(r))
+        };
+        if how == 1 && w >= 2 { s.configure_wrap(1 + i % (w - 1)); }
         s.configure_wrap(w);
         s
     }).collect();
